@@ -253,18 +253,27 @@ pub struct SessionCase {
     pub tape: Vec<Line>,
     pub crlf: bool,
     pub timeout_at_end: bool,
+    /// a hard read error at this read-call index of the whole session (the exchange it hits must fail; the bus stays usable)
+    #[serde(default)]
+    pub read_error_at: Option<usize>,
 }
 
 pub fn check_session(c: &SessionCase, st: &mut Stats) -> Result<(), String> {
     let as_exchange = ExchangeCase { msg: M::Count(0), tape: c.tape.clone(), crlf: c.crlf, trailing: vec![], fault: PortFault::None, timeout_at_end: c.timeout_at_end };
     let (port, tape, _) = make_port(&as_exchange);
     let h = port.handle();
+    if let Some(k) = c.read_error_at {
+        let mut s = h.borrow_mut();
+        s.read_script = vec![ReadStep::Serve(1); k];
+        s.read_script.push(ReadStep::Error(io::ErrorKind::Other));
+    }
     let mut bus = SerialSignBus::try_new(port).map_err(|e| format!("SerialSignBus::try_new failed on a cooperative port: {e}"))?;
     let mut want_written: Vec<u8> = vec![];
     let mut want_pos = 0usize;
     let mut after_bad_reply = false;
     let mut interesting = false;
     for (i, m) in c.msgs.iter().enumerate() {
+        let reads_before = h.borrow().read_calls.len();
         let result = catch(|| bus.process_message(m.to_message()).map(|r| r.map(|x| M::from_message(&x))).map_err(|e| e.to_string()))
             .map_err(|p| format!("exchange {i}: process_message({}) panicked: {p}", m.short()))?;
         st.eval();
@@ -290,6 +299,19 @@ pub fn check_session(c: &SessionCase, st: &mut Stats) -> Result<(), String> {
         }
         let line_end = tape[want_pos..].iter().position(|&b| b == b'\n').map(|k| want_pos + k + 1).unwrap_or(tape.len());
         let line = &tape[want_pos..line_end];
+        let read_failed_now = s.read_calls.iter().skip(reads_before).any(|r| matches!(r.result, Err(k) if k != io::ErrorKind::Interrupted));
+        if read_failed_now {
+            if result.is_ok() {
+                return Err(format!("exchange {i} ({}): the port's read failed but process_message returned {result:?}", m.short()));
+            }
+            if s.pos > line_end {
+                return Err(format!("exchange {i} ({}): the bus read past the end of the reply line", m.short()));
+            }
+            // the rest of the interrupted line is still in the stream: the next reply-expecting exchange starts there
+            want_pos = s.pos;
+            after_bad_reply = true;
+            continue;
+        }
         if s.pos != line_end {
             return Err(format!(
                 "exchange {i} ({}): the bus is at offset {} of the reply stream {}, exactly one more line ends at {line_end}",
@@ -352,8 +374,14 @@ pub fn session_strategy() -> impl Strategy<Value = SessionCase> {
         1 => Just(Line::Raw(b"noise".to_vec())),
         1 => proptest::collection::vec(any::<u8>(), 0..12).prop_map(Line::Raw),
     ];
-    (proptest::collection::vec(msg, 1..=6), proptest::collection::vec(line, 0..=7), prop_oneof![5 => Just(true), 1 => Just(false)], any::<bool>())
-        .prop_map(|(msgs, tape, crlf, timeout_at_end)| SessionCase { msgs, tape, crlf, timeout_at_end })
+    (
+        proptest::collection::vec(msg, 1..=6),
+        proptest::collection::vec(line, 0..=7),
+        prop_oneof![5 => Just(true), 1 => Just(false)],
+        any::<bool>(),
+        prop_oneof![3 => Just(None), 1 => (0usize..60).prop_map(Some)],
+    )
+        .prop_map(|(msgs, tape, crlf, timeout_at_end, read_error_at)| SessionCase { msgs, tape, crlf, timeout_at_end, read_error_at })
 }
 
 // ---------------------------------------------------------------------------------------
@@ -491,6 +519,7 @@ pub fn run(ctx: &Ctx) {
                     tape: vec![b.clone(), Line::Msg(reply2), Line::Msg(M::Report(3, 7))],
                     crlf: true,
                     timeout_at_end: false,
+                    read_error_at: None,
                 });
             }
         }
